@@ -92,3 +92,35 @@ def factor_small(n: int):
     if n > 1:
         out[n] = out.get(n, 0) + 1
     return out
+
+
+def cbrt_mod(a: int, p: int):
+    """One cube root of a modulo the prime p, or None.  For p = 1 (mod 3) the 3-Sylow part is
+    handled by a brute-force discrete logarithm (fine while 3^s is small)."""
+    a %= p
+    if a == 0:
+        return 0
+    if p % 3 == 2:
+        return pow(a, (2 * p - 1) // 3, p)
+    if pow(a, (p - 1) // 3, p) != 1:
+        return None
+    s, t = 0, p - 1
+    while t % 3 == 0:
+        s, t = s + 1, t // 3
+    if 3 ** s > 10 ** 6:
+        raise NotImplementedError("3-Sylow subgroup too large for brute force")
+    c = 2
+    while pow(c, (p - 1) // 3, p) == 1:
+        c += 1
+    g = pow(c, t, p)                      # generator of the 3-Sylow subgroup (order 3^s)
+    e = pow(3, -1, t)
+    m = (3 * e - 1) // t
+    at = pow(a, t, p)                     # = g^(3j) because a is a cube
+    gj, j, g3 = 1, 0, pow(g, 3, p)
+    while gj != at:
+        gj, j = gj * g3 % p, j + 1
+        if j > 3 ** s:
+            raise AssertionError("cube root: discrete log failed")
+    root = pow(a, e, p) * pow(g, -(j * m), p) % p
+    assert pow(root, 3, p) == a
+    return root
